@@ -12,8 +12,8 @@
      STransient  ECONNREFUSED ... ETIME: the packet goes to `laters`, its destination is blocked for
                  the rest of the pass, `laters` is put back on .txPkts at the end of the call (full
                  pass: the deque is empty by then; single shot: at the FRONT, appendleft)
-     SFatal      any other errno: re-raised at once -- the popped packet and the `laters` collected so
-                 far in this call are gone (there is no try/finally), the unpopped rest stays queued
+     SFatal      any other errno: re-raised at once -- the popped packet is gone; the `laters` collected so
+                 far in this call go back IN FRONT of the unpopped rest (finally clause, /repo 9b6e326)
    An exhausted oracle means SOk. *)
 From Coq Require Import List ZArith Bool Arith Lia Permutation.
 Import ListNotations.
@@ -45,7 +45,7 @@ Fixpoint pass (q laters : list pkt) (blk : list Z) (orc : list sres) (snt : list
       if memZ (dst p) blk then pass q' (laters ++ [p]) blk orc snt
       else match orc with
            | STransient :: orc' => pass q' (laters ++ [p]) (blk ++ [dst p]) orc' snt
-           | SFatal :: _ => (q', snt, laters ++ [p], true)
+           | SFatal :: _ => (laters ++ q', snt, [p], true)
            | SOk :: orc' => pass q' laters blk orc' (snt ++ [p])
            | [] => pass q' laters blk [] (snt ++ [p])
            end
@@ -135,8 +135,8 @@ Proof.
         -- rewrite P. rewrite <- !app_assoc. reflexivity.
         -- intro Hb. apply F. cbn in Hb. exact Hb.
       * inversion H; subst. split; [|split; [discriminate|cbn; discriminate]].
-        apply Permutation_app_head. rewrite (Permutation_app_comm q' (laters ++ [p])).
-        rewrite <- app_assoc. reflexivity.
+        apply Permutation_app_head. rewrite <- app_assoc. apply Permutation_app_head.
+        apply Permutation_sym. apply Permutation_cons_append.
 Qed.
 
 Definition accounted (s : gs) : Prop := Permutation (sent s ++ txq s ++ lost s) (queued s).
